@@ -280,39 +280,42 @@ class Monitor:
 # Ready-made monitors
 # ---------------------------------------------------------------------------------------------
 class GateMonitor(Monitor):
-    """Every path to an accept point must have taken an edge establishing `pred` (pattern, want)
-    since the last redefinition of a kill variable."""
+    """Every path to an accept point must have taken an edge establishing one of the alternatives
+    (pattern, want) since the last redefinition of that alternative's operands.
+    Monitor state: 0 = not established, i+1 = established by alternative i, -1 = by a statement."""
 
-    def __init__(self, accept_pts, pred, want=None, kill_ids=(), est_elem=None, accept_edge=None, check_exit=False):
+    def __init__(self, accept_pts, pred, want=None, kill_ids=(), est_elem=None, accept_edge=None, check_exit=False, kill_fn=None):
         self.accept = set(accept_pts)
         self.accept_edge = accept_edge
         self.check_exit = check_exit
-        # pred: a pattern with `want`, or a list of alternatives [(pattern, want), ...]
         if pred is None:
-            self.alts = []
+            alts = []
         elif isinstance(pred, list):
-            self.alts = [(parse(p), w) for p, w in pred]
+            alts = [(parse(p), w, p) for p, w in pred]
         else:
-            self.alts = [(parse(pred), want)]
+            alts = [(parse(pred), want, pred)]
+        # per-alternative kill sets: kill_fn(pattern text) -> ids, else the common kill_ids
+        self.alts = [(p, w, set(kill_fn(src)) if kill_fn else set(kill_ids)) for p, w, src in alts]
         self.pred = pred
         self.want = want
-        self.kill = set(kill_ids)
         self.est_elem = est_elem
 
     def elem(self, m, pt, e, s):
         if pt in self.accept and not m:
             return Viol("accept point reached without %s being %s" % (self.pred_str(), self.want), pt)
-        if self.kill and m:
-            for n in own_walk(e):
-                k = n.get("k")
-                if k == "assign" and strip(n["l"]).get("k") == "ref" and strip(n["l"])["id"] in self.kill:
-                    return False
-                if k in ("decl",) and n["id"] in self.kill:
-                    return False
-                if k == "un" and n["op"] in ("post++", "post--", "pre++", "pre--") and strip(n["e"]).get("k") == "ref" and strip(n["e"])["id"] in self.kill:
-                    return False
+        if m and m > 0:
+            kill = self.alts[m - 1][2]
+            if kill:
+                for n in own_walk(e):
+                    k = n.get("k")
+                    if k == "assign" and strip(n["l"]).get("k") == "ref" and strip(n["l"])["id"] in kill:
+                        m = 0
+                    elif k == "decl" and n["id"] in kill:
+                        m = 0
+                    elif k == "un" and n["op"] in ("post++", "post--", "pre++", "pre--") and strip(n["e"]).get("k") == "ref" and strip(n["e"])["id"] in kill:
+                        m = 0
         if self.est_elem is not None and self.est_elem(pt, e):
-            return True
+            return -1
         return m
 
     def exit(self, m, bid, s):
@@ -325,9 +328,9 @@ class GateMonitor(Monitor):
 
     def edge(self, m, bid, edge, cond, truth, s):
         if cond is not None and truth is not None:
-            for p, w in self.alts:
+            for i, (p, w, kill) in enumerate(self.alts):
                 if s.m.cond_matches(p, w, cond, truth):
-                    return True
+                    return i + 1
         if self.accept_edge is not None and not m and self.accept_edge(bid, edge):
             return Viol("accept edge %s taken without %s being %s" % (edge.label_str(), self.pred_str(), self.want), (bid, len(s.fn.blocks[bid].elems) - 1))
         return m
